@@ -61,6 +61,7 @@ Definition real_step (S : sets) (o : op) (accepted : bool) : sets :=
     match o with
     | Add s ds | Update s ds => put_set S s ds
     | Delete s => del_set S s
+    | Refused _ => S
     end
   else S.
 
@@ -116,8 +117,11 @@ Definition rd (id uid body : nat) (bt : bool) (meth : list nat) (paths : list st
 Definition A := Add.
 Definition U := Update.
 Definition D := Delete.
+Definition R := Refused.
 Definition er (n : nat) : option err :=
-  match n with 0 => None | 1 => Some EInvalidPath | 2 => Some EConstraint | 3 => Some EDelete | _ => Some EPanic end.
+  match n with
+  | 0 => None | 1 => Some EInvalidPath | 2 => Some EConstraint | 3 => Some EDelete | 6 => Some ELoad | _ => Some EPanic
+  end.
 (* answers: 0 = no rule, n+1 = rule with label n *)
 Definition an (l : list nat) : list (option nat) := map (fun n => match n with 0 => None | S k => Some k end) l.
 Definition so (r : nat) (hist : list nat) (fok : bool) (fresh : list nat) : step_obs :=
